@@ -25,6 +25,15 @@ Theorem C20_posix_same_tables : forall c, opt_kind w2x_optstring c = kind_w2x c 
 Proof. intro c. split; [exact (opt_kind_w2x c) | exact (opt_kind_x2w c)]. Qed.
 Print Assumptions C20_posix_same_tables.
 
+(* the executables CMake builds on this platform call glibc's getopt (flavour Posix, a description of glibc: it
+   moves file names behind the options and knows "--").  On command lines of the documented form
+   `tool [options] file ...` — every option word before the first file name, no "--" as an option word — both
+   flavours compute the same options, the same argv and the same optind, hence (by the theorems below) the same outcome *)
+Theorem C20_flavours_agree_on_documented_form : forall t argv,
+  argv_ok argv -> documented_form t argv = true -> tool_parse t Posix argv = tool_parse t Att argv.
+Proof. exact posix_equals_att_on_documented_form. Qed.
+Print Assumptions C20_flavours_agree_on_documented_form.
+
 (* reading in 1000-byte blocks delivers the whole input, whatever its length *)
 Theorem C20_blocks_deliver_input : forall bs, read_blocks (S (length bs)) bs [] = Some bs.
 Proof. exact read_blocks_all. Qed.
@@ -138,5 +147,10 @@ Example argv_ok_ex : argv_ok [[119]; [45; 111]; [111]; [105]].
 Proof. repeat constructor; discriminate. Qed.
 Example request_ex : request W2X Att [[119]; [45; 111]; [111]; [105]] = Some (LW w2x_default, Some [111], [105]).
 Proof. vm_compute. reflexivity. Qed.
+Example documented_form_ex : documented_form W2X [[119]; [45; 111]; [111]; [105]] = true.
+Proof. vm_compute. reflexivity. Qed.
+Example flavours_differ_ex :   (* "x in -k": glibc finds -k, the AT&T code stops at "in" *)
+  tool_parse X2W Posix [[120]; [105; 110]; [45; 107]] <> tool_parse X2W Att [[120]; [105; 110]; [45; 107]].
+Proof. vm_compute. discriminate. Qed.
 Example request_none_ex : request X2W Posix [[120]; [105]; [45; 122]] = None.
 Proof. vm_compute. reflexivity. Qed.
